@@ -89,7 +89,7 @@ def assigned_value(target) -> Optional[ast.expr]:
     while isinstance(p, (ast.Tuple, ast.List, ast.Starred)):
         path.append((p, n))
         n, p = p, getattr(p, "_parent", None)
-    if isinstance(p, (ast.Assign, ast.AnnAssign)):
+    if isinstance(p, (ast.Assign, ast.AnnAssign, ast.NamedExpr)):
         val = p.value
     else:
         return None
